@@ -31,6 +31,9 @@ def build_engine(sc, emitter='verif', parallel=()):
     for pid in sc.get('order', list(sc['procs'])):
         cfg = dict(sc['procs'][pid])
         cfg['pid'] = pid
+        if sc.get('precision') is not None:
+            cfg['prec'] = sc['precision']
+            cfg['scale'] = 10.0 ** -sc['precision']
         if pid in parallel:
             cfg['_parallel'] = True
         if cfg.get('sops') is not None:
@@ -55,9 +58,13 @@ def build_engine(sc, emitter='verif', parallel=()):
     eng = Engine(
         processes=procs, steps=steps, flow=flow, topology=topo,
         initial_state={'v': dict(sc.get('init', {}))},
-        emitter={'type': emitter}, emit_step=sc.get('emit_step', 1),
+        emitter={'type': emitter},
+        emit_step=sc.get('emit_step', 1) if sc.get('precision') is None
+        else (sc.get('emit_step', 1) if sc.get('emit_step', 1) == 1
+              else round(sc['emit_step'] * 10.0 ** -sc['precision'], sc['precision'])),
         display_info=False, progress_bar=False,
-        initial_global_time=sc.get('t0', 0), **kw)
+        initial_global_time=sc.get('t0', 0) if sc.get('precision') is None
+        else round(sc.get('t0', 0) * 10.0 ** -sc['precision'], sc['precision']), **kw)
     return eng
 
 
@@ -73,12 +80,17 @@ def front_projection(eng):
 
 def run_scenario(sc, watchdog=5.0):
     """Returns the raw event list of one run of the real engine."""
-    rec = probes.reset(sc.get('t0', 0))
+    t0 = sc.get('t0', 0)
+    if sc.get('precision') is not None:
+        t0 = round(t0 * 10.0 ** -sc['precision'], sc['precision'])
+    rec = probes.reset(t0)
     try:
         with Watchdog(watchdog):
             eng = build_engine(sc)
             rec.engine = eng
             for iv, force in sc['calls']:
+                if sc.get('precision') is not None:
+                    iv = round(iv * 10.0 ** -sc['precision'], sc['precision'])
                 rec.add('call', iv, bool(force), eng.global_time)
                 if force:
                     eng.update(iv)
@@ -113,16 +125,32 @@ def emit_off_of(sc):
     return sorted(off)
 
 
-def to_records(sc, raw, scale=1):
+def to_records(sc, raw, scale=None):
     """Group raw callbacks syntactically into the records TLC consumes.
 
-    Times are divided by ``scale`` (the tick length) and must be integral.
+    Times are converted to integer ticks.  With global_time_precision p the tick
+    is 10^-p and every *time* (clock, front, row) must be exactly the float
+    round(k * 10^-p, p); a time that is not is mapped to a value nothing in the
+    specification matches.  Timestep *arguments* are differences of such floats
+    and are mapped with a tolerance.
     """
-    def tick(t):
+    prec = sc.get('precision')
+    if scale is None:
+        scale = 1 if prec is None else 10.0 ** -prec
+
+    def tick_len(t):
         q = t / scale
         r = round(q)
-        if abs(q - r) > 1e-9:
-            return -777  # off the grid: matches nothing in the specification
+        if abs(q - r) > 1e-6:
+            return -777
+        return int(r)
+
+    def tick(t):
+        if prec is None:
+            return tick_len(t)
+        r = round(t / scale)
+        if t != round(r * scale, prec):
+            return -777  # off the grid
         return int(r)
 
     recs = []
@@ -136,8 +164,8 @@ def to_records(sc, raw, scale=1):
                 if sc['steps'][s].get('deps') is None],
         'vals': {},
         'emit_off': emit_off_of(sc),
-        'emit_step': tick(sc.get('emit_step', 1)),
-        't0': tick(sc.get('t0', 0)),
+        'emit_step': int(sc.get('emit_step', 1)),
+        't0': int(sc.get('t0', 0)),
     }
     allv = set()
     for c in list(sc['procs'].values()) + list(sc.get('steps', {}).values()):
@@ -160,23 +188,22 @@ def to_records(sc, raw, scale=1):
                  'handed': 0, 'uid': 0, 'upd': {}, 'view': {}, 'now': 0,
                  'sop': {'op': 'none', 'q': '-'}}
             if k == 'ts':
-                r['ts'] = tick(ev[2])
+                r['ts'] = int(ev[2])
                 r['now'] = tick(ev[3])
                 r['view'] = ev[4]
                 i += 1
             if i < n and raw[i][0] == 'cond' and raw[i][1] == p:
                 c = raw[i]
                 r['cond'] = 'T' if c[3] else 'F'
-                r['targ'] = tick(c[2])
+                r['targ'] = tick_len(c[2])
                 r['now'] = tick(c[4])
                 i += 1
                 if i < n and raw[i][0] == 'inv' and raw[i][1] == p:
                     v = raw[i]
-                    r['handed'] = tick(v[2])
+                    r['handed'] = tick_len(v[2])
                     r['view'] = v[4]
                     r['uid'] = v[5]
-                    r['upd'] = {kk: (tick(vv) if kk == p else vv)
-                                for kk, vv in v[6].items()}
+                    r['upd'] = dict(v[6])
                     i += 1
                     if i < n and raw[i][0] == 'sop' and raw[i][1] == p:
                         r['sop'] = {'op': raw[i][2], 'q': raw[i][3]}
@@ -222,7 +249,7 @@ def to_records(sc, raw, scale=1):
             last_kind = 'apply'
             continue
         if k == 'call':
-            recs.append({'ev': 'call', 'iv': tick(ev[1]), 'force': ev[2],
+            recs.append({'ev': 'call', 'iv': tick_len(ev[1]), 'force': ev[2],
                          'now': tick(ev[3])})
             constructed = True
             last_kind = 'call'
@@ -292,6 +319,14 @@ def random_scenario(rng, nprocs=None, max_ts=3, max_calls=3, shared=True,
         sc['steps'] = steps
         so = list(sids)
         sc['step_order'] = so
+    if rng.random() < 0.2 and not state_dependent:
+        # timesteps on the 10^-p grid with global_time_precision p
+        sc['precision'] = rng.choice([1, 2])
+        sc['calls'] = [[rng.randint(3, 12), f] for _iv, f in sc['calls']]
+        for c in procs.values():
+            c['ts'] = [rng.choice([1, 2, 3, 7]) for _ in c['ts']]
+        if sc['emit_step'] != 1:
+            sc['emit_step'] = 1
     allvars = sorted({v for c in list(procs.values()) + list(sc.get('steps', {}).values())
                       for v in c['vars']})
     r = rng.random()
@@ -334,8 +369,10 @@ def director_scenario(rng, max_ts=3):
     pids = sorted(sc['procs'])
     spare = ['p%d' % (len(pids) + 1), 'p%d' % (len(pids) + 2)]
     sc.pop('store_schema', None)
+    sc.pop('precision', None)
     for c in sc['procs'].values():
         c.pop('emit_off', None)
+        c['ts'] = [min(t, max_ts) for t in c['ts']]
     d = sc['procs']['p1']
     sops, alive, free = [], set(pids) - {'p1'}, list(spare)
     for k in range(rng.randint(2, 6)):
